@@ -33,6 +33,14 @@
      the clause is needed;
    * a converter completion makes tags with data-dependent SUB-QUERY features pending on every stream; `ConvBase`
      now says what it should.
+  Third version (a third fix of the Go service, found with the converter-aware oracle): detaching a converter
+  from the last tag whose matches it served (`updConv` / `delTag`) resets the converter's cache, so the truth of
+  every payload tag may change; the service now makes those tags pending everywhere, sweeps, records
+  `rst = all streams` and may START a tagging job (`outputDropped`).  `TruthStep` lets an accepted `updConv` /
+  `delTag` in the `DropsOutput` situation change payload tags on any stream (`PayloadBase`, plus referrers via
+  `Dep`); otherwise `updConv` changes nothing and `delTag m` only `m`.  A job started in the middle of such an
+  event is covered by `job_started` (Pk/Proofs/MgrTruthJob.lean): later `outputDropped` calls of the same event
+  only add pending streams that are justified by pending references (`inherit_sound`, `LateCov`).
 
   The frame contract bounds the set of (tag, stream) pairs whose truth changes by the CLOSURE of a base set
   under tag references (`Dep`, a least fixed point).  This is weaker than the one-step form "n changes only
@@ -58,6 +66,7 @@ import Pk.Props.MgrReach
 import Pk.Props.C09Settles
 import Pk.Proofs.MgrTruthDep
 import Pk.Proofs.MgrTruthFrame
+import Pk.Proofs.MgrTruthDrop
 
 namespace Pk.Props.C06Reach
 open Pk.Mgr Pk.Props.MgrReach Pk.Proofs.MgrTruth Pk.Proofs.MgrTags
@@ -104,6 +113,13 @@ def ConvBase (s : St) (sets : List (String × IdSet)) (n : String) (id : Nat) : 
   ∃ t, sget s.tags n = some t ∧ ∃ p, p ∈ sets ∧ p.1 ∈ s.convs ∧
     ((t.mfeat &&& fData ≠ 0 ∧ id ∈ p.2) ∨ (t.sfeat &&& fData ≠ 0 ∧ p.2 ≠ []))
 
+/-- what dropping converter output may change directly (an `updConv` / `delTag` that detaches a converter from the
+    last tag whose matches it served: `DropsOutput`, Pk/Proofs/MgrTruthDrop.lean — the converter's cache is reset):
+    every definition that looks at stream data in its main query or in a sub-query ("payload tag") also matches
+    on cached converter output, so its truth may change on ANY stream -- CHANGED (dropped) -/
+def PayloadBase (s : St) (n : String) (_id : Nat) : Prop :=
+  ∃ t, sget s.tags n = some t ∧ Payload t
+
 /-- how the truth may change at event `e` taken in state `s` (`T` before, `T'` after) -/
 def TruthStep (s : St) (e : Ev) (T T' : Truth) : Prop :=
   -- a rejected API call changes nothing
@@ -144,7 +160,17 @@ def TruthStep (s : St) (e : Ev) (T T' : Truth) : Prop :=
       if new = "" then SameOn s T T' else
       -- the tag's truth moves to the new name (a renamed tag has no referrers)
       (∀ n, n ≠ name → n ≠ new → SameAt s T T' n) ∧ (∀ id, id < s.next → T' new id = T name id)
-    | .delTag name => ∀ n, n ≠ name → SameAt s T T' n      -- a deleted tag has no referrers
+    | .delTag name =>
+      -- a deleted tag has no referrers; deleting the last tag of a converter drops the converter's output:
+      -- payload tags and their (transitive) referrers -- CHANGED (dropped)
+      (¬ DropsOutput s (.delTag name) → ∀ n, n ≠ name → SameAt s T T' n) ∧
+      (DropsOutput s (.delTag name) → ∀ n t, n ≠ name → sget s.tags n = some t → ∀ id, id < s.next →
+        T' n id ≠ T n id → Dep s.tags s.next (PayloadBase s) n id)
+    | .updConv name convs =>
+      -- changing the converters of a tag changes nothing, unless it detaches a converter from its last tag:
+      -- then payload tags and their (transitive) referrers -- CHANGED (dropped)
+      (¬ DropsOutput s (.updConv name convs) → SameOn s T T') ∧
+      (DropsOutput s (.updConv name convs) → ChangesIn s s.next (PayloadBase s) T T')
     | _ => SameOn s T T')
 
 /-! ## payload contracts -/
